@@ -4,10 +4,13 @@ import CoapVerif.Generated.BlockConst
 /- Line-protocol driver for C18, Block-layer containers (Model/AllocBlock.lean):
    `atrack <k1> <k2> <step>…`                              the client's lg_crcv and its list of Observe tokens
    `asrcv <k1> <k2> <szx> <bodylen> <tl> <size1|-> <step>…` the server's lg_srcv (Block1 reassembly)
+   `asrcvu …` the same for a transfer to the UNKNOWN resource (the lg_srcv keeps a copy of the URI path; `lg=` has a sixth
+   component `p` / `-`)
    under the oracle that fails exactly requests k1 and k2; prints the canonical line of harness/allocfail.c (without the
    allocation tags) followed by the verdict of the verified monitor on M's own whole trace after clean-up. -/
 -- DRIVER-OPS: atrack => Coap.Driver.AllocBlock.trackStep
 -- DRIVER-OPS: asrcv => Coap.Driver.AllocBlock.srcvStep
+-- DRIVER-OPS: asrcvu => Coap.Driver.AllocBlock.srcvStepU
 namespace Coap.Driver.AllocBlock
 open Coap Coap.AllocOracle Coap.AllocBlock Coap.Sessions
 open Coap.Driver.AllocOracle (showTrace)
@@ -112,7 +115,7 @@ def showLg (st : Option ASrcv) : String :=
     "/" ++ toString lg.totalLen ++ "/" ++ (match lg.body with | some (_, l) => toString l | none => "-") ++
     "/" ++ (if lg.noMoreSeen then "1" else "0") ++ "/" ++ (match lg.lastTok with | some (_, l) => toString l | none => "-")
 
-def srcvStep (args : List String) : String :=
+def srcvStepG (unk : Bool) (args : List String) : String :=
   match args with
   | k1 :: k2 :: szx :: blen :: tl :: s1 :: evs =>
     match k1.toNat?, k2.toNat?, szx.toNat?, blen.toNat?, tl.toNat? with
@@ -122,13 +125,17 @@ def srcvStep (args : List String) : String :=
       match size1, evs.mapM (parseSEv (2 ^ (szx + 4)) blen) with
       | some size1, some evs =>
         let h0 : Heap := { orc := oracleFailing k1 k2 (max k1 k2) }
-        let cfg : SCfg := { cap := Coap.Generated.rblockCnt, szx := szx, tokLen := tl, size1 := size1 }
+        let cfg : SCfg := { cap := Coap.Generated.rblockCnt, szx := szx, tokLen := tl, size1 := size1, unk := unk }
         let (outs, st, h) := srcvRun cfg none h0 evs
         "M rc=" ++ (if outs.isEmpty then "-" else String.intercalate "," (outs.map showSOut)) ++
-        " n=" ++ toString h.reqs ++ " lg=" ++ showLg st ++ " T " ++ showTrace h.trace ++
+        " n=" ++ toString h.reqs ++ " lg=" ++ showLg st ++
+          (if unk then (match st with | some lg => (if lg.uriPath.isSome then "/p" else "/-") | none => "") else "") ++ " T " ++ showTrace h.trace ++
         " | ledger=" ++ verdict (some (srcvCleanup st h))
       | _, _ => "bad-op"
     | _, _, _, _, _ => "bad-op"
   | _ => "bad-op"
+
+def srcvStep (args : List String) : String := srcvStepG false args
+def srcvStepU (args : List String) : String := srcvStepG true args
 
 end Coap.Driver.AllocBlock
